@@ -587,6 +587,7 @@ func decideC04(c *vh.Case, spec c04Spec) {
 	cancelT, releaseT := map[int]int64{}, map[int]int64{}
 	cancelSeq := map[int]int64{}
 	hstart, hdone := map[int]vh.Event{}, map[int]vh.Event{}
+	hfinish := map[int]vh.Event{}
 	noticeFor := map[int]int{}
 	var closing int64 = 1 << 60
 	for _, e := range evs {
@@ -610,6 +611,10 @@ func decideC04(c *vh.Case, spec c04Spec) {
 		case "handler-ctx-done":
 			if _, ok := hdone[n]; !ok {
 				hdone[n] = e
+			}
+		case "handler-finish":
+			if _, ok := hfinish[n]; !ok {
+				hfinish[n] = e
 			}
 		case "cancel-notice-attempt":
 			noticeFor[n]++
@@ -693,7 +698,11 @@ func decideC04(c *vh.Case, spec c04Spec) {
 				// the matching handler, if it was already running when the cancel happened
 				// ("during handling"), must see the cancellation at the cancel instant
 				if hasStart && hs.Seq < cancelSeq[n] && (!cs.ByDeadline || hs.T < ct) {
-					if !hasDone {
+					if hf, ok := hfinish[n]; ok && !hasDone && hf.T <= ct {
+						// the handler had returned by the instant of the cancellation (it gave up by itself in that very
+						// instant, e.g. because its nested request could no longer be written): nothing was left to cancel
+						c.Count("handler_already_gone_at_cancel", 1)
+					} else if !hasDone {
 						key := "handler-not-cancelled"
 						if spec.NestAtOnce && cs.Dir == "s2c" {
 							key = "handler-not-cancelled/nested-caller-returned"
